@@ -314,7 +314,7 @@ fn exec_supply_inner(check: &str, t: &SupplyTrace, scratch: &Scratch, rec: &mut 
 fn faults_for(check: &str) -> (&'static [F], &'static [F]) {
     // (primary, secondary)
     const ALL_COUNT: &[F] = &[
-        F::Drop, F::Outsider, F::WrongStep, F::OwnerAsFunc, F::SigSwap, F::SigFlip, F::LinkEdit, F::Relabel, F::Misfile, F::Unmet, F::Unlisted, F::Misattributed, F::ExtraStranger, F::UnknownSchemeFunc,
+        F::Drop, F::Outsider, F::WrongStep, F::OwnerAsFunc, F::SigSwap, F::SigFlip, F::LinkEdit, F::Relabel, F::Misfile, F::Unmet, F::Unlisted, F::Misattributed, F::ExtraStranger, F::UnknownSchemeFunc, F::DupStep,
     ];
     const LAYOUT: &[F] = &[
         F::LNoSig, F::LForged, F::LCorrupt, F::LEdit, F::LEdit, F::LSigDup, F::CallerEmpty, F::CallerSuperset, F::CallerDisjoint, F::CallerAlias, F::CallerJsonAlias, F::UnknownSchemeOwner,
